@@ -43,6 +43,73 @@ Proof.
   - intros [[a [H1 H2]] H3]. exists a. split; [apply IH; auto | auto].
 Qed.
 
+Lemma str_elem_ptr_iff : forall e b x, str_elem_ptr e b = Ok x <-> decode_str_elem_ptr e b = Some x.
+Proof.
+  induction e; intros b x; simpl; try (split; discriminate).
+  - destruct k; try (split; discriminate). split; intro H; inversion H; reflexivity.
+  - rewrite rmap_ok, omap_some. split; intros [a [H1 H2]]; exists a; split; auto; apply IHe; auto.
+Qed.
+
+Lemma str_elem_iff : forall e v x, str_elem e v = Ok x <-> decode_str_elem e v = Some x.
+Proof.
+  intros e v x. destruct e; simpl; try (split; discriminate).
+  - apply prim_elem_iff.
+  - destruct v; try (split; discriminate).
+    rewrite rmap_ok, omap_some. split; intros [a [H1 H2]]; exists a; split; auto; apply str_elem_ptr_iff; auto.
+Qed.
+
+Lemma mapM_omapM : forall {A B} (f : A -> result B) (g : A -> option B) (l : list A),
+  (forall a b, f a = Ok b <-> g a = Some b) -> forall ys, mapM f l = Ok ys <-> omapM g l = Some ys.
+Proof.
+  intros A B f g l H ys.
+  rewrite (mapM_iff f g (fun _ => true) l).
+  - split. + intros [H1 _]. exact H1. + intro H1. split; [exact H1|]. apply forallb_forall. reflexivity.
+  - intros a b _. rewrite H. split. + intro H1. auto. + intros [H1 _]. exact H1.
+Qed.
+
+Lemma str_slice_iff : forall e s x, str_slice e s = Ok x <-> decode_str_slice e s = Some x.
+Proof.
+  intros e s x. unfold str_slice, decode_str_slice.
+  destruct (json_value s) as [[| | | |l| |]|]; try (split; discriminate).
+  - split; intro H; inversion H; reflexivity.
+  - rewrite rmap_ok, omap_some. split; intros [a [H1 H2]]; exists a; split; auto;
+      apply (mapM_omapM (str_elem e) (decode_str_elem e) l (str_elem_iff e)); auto.
+Qed.
+
+Lemma str_elem_ptr_no_panic : forall e b, str_elem_ptr e b <> Panic.
+Proof.
+  induction e; intro b; simpl; try discriminate.
+  - destruct k; discriminate.
+  - apply rmap_no_panic. apply IHe.
+Qed.
+
+Lemma str_slice_no_panic : forall e s, str_slice e s <> Panic.
+Proof.
+  intros e s. unfold str_slice. destruct (json_value s) as [[| | | |l| |]|]; try discriminate.
+  apply rmap_no_panic. apply mapM_no_panic. intros a _. destruct e; simpl; try discriminate.
+  - apply prim_elem_no_panic.
+  - destruct a; try discriminate. apply rmap_no_panic. apply str_elem_ptr_no_panic.
+Qed.
+
+Lemma slicePK_case : forall e, PK_type e ->
+  forall (v : jv) x,
+    match v with
+    | JArr l => slice_with (umk_elem kc false e) (zero e) l
+    | JStr s => str_slice e s
+    | _ => Err EType
+    end = Ok x <->
+    match v with
+    | JArr l => decode_slice (decodeK_elem kc false e) (zero e) l
+    | JStr s => decode_str_slice e s
+    | _ => None
+    end = Some x /\
+    match v with JArr l => all_elems (meetsK_elem kc e) l | _ => true end = true.
+Proof.
+  intros e [_ [IH _]] v x. destruct v; try (split; [discriminate | intros [H _]; discriminate]).
+  - rewrite str_slice_iff. split; [intro H; auto | intros [H _]; exact H].
+  - apply slice_with_iff. intros a b _. apply IH.
+Qed.
+
 Lemma sliceK_case : forall e, PK_type e ->
   forall (v : jv) x,
     match v with JArr l => slice_with (umk_elem kc false e) (zero e) l | _ => Err EType end = Ok x <->
@@ -88,7 +155,7 @@ Proof.
       * intros [[a [H1 H2]] H3]. exists a. split; [apply IHd; auto | auto].
   - (* TSlice *)
     intros e IH. unfold PK_type. simpl. cbn [umk_absent decodeK_absent meetsK_absent umk_default decodeK_default meetsK_default]. split; [|split; [|split]].
-    + intros env o b v x. apply sliceK_case. exact IH.
+    + intros env o b v x. apply slicePK_case. exact IH.
     + intros inmap v x. apply sliceK_case. exact IH.
     + intro x. split; [discriminate | intros [_ H]; discriminate].
     + intros d x. destruct (slice_default_doc e d) as [[| | | |l| |]|];
@@ -309,7 +376,7 @@ Proof.
     + apply rmap_no_panic. exact Ha.
     + intro d. apply rmap_no_panic. apply Hd.
   - intros e [Hp [He [Ha Hd]]]. unfold NK_type. simpl. cbn [umk_absent umk_default]. repeat split.
-    + intros env ro v. destruct v; try discriminate. apply slice_with_no_panic. apply He.
+    + intros env ro v. destruct v; try discriminate; [apply str_slice_no_panic | apply slice_with_no_panic; apply He].
     + intros inmap v. destruct v; try discriminate. apply slice_with_no_panic. apply He.
     + discriminate.
     + intro d. destruct (slice_default_doc e d) as [[| | | |l| |]|]; try discriminate.
